@@ -88,6 +88,25 @@ def strata(tier):
                            "doc": HOSTILE, "cast_class": cls}
 
 
+def corpus_cases(tier, tag):
+    """W4: realistic corpus schemas against their valid document and perturbed copies of it"""
+    from .. import corpus
+    for e in corpus.CORPUS:
+        rules = [{k: v for k, v in r.items() if k != "doc_spec"} for r in e["rules"]]
+        yield {"rules": rules, "doc": e["doc"], "w4": e["name"]}
+        for j in range(25 if tier == "quick" else 150):
+            rng = G.rng_for("W4", tag, e["name"], j)
+            yield {"rules": rules, "doc": corpus.perturb(rng, e["doc"]), "w4": e["name"]}
+
+
+_strata0 = strata
+
+
+def strata(tier):  # noqa: F811
+    yield from _strata0(tier)
+    yield from corpus_cases(tier, "C07")
+
+
 def budget(tier):
     return 30000 if tier == "quick" else 600000
 
@@ -174,6 +193,8 @@ def run(case, ctx):
             ctx.count("cast-rules")
             if case.get("cast_class"):
                 ctx.count(f"cast:{r['cast'][0][1]}:{case['cast_class']}")
+    if case.get("w4"):
+        ctx.count("W4-corpus-cases")
     ctx.count("absorbed-exceptions", absorbed)
     if absorbed:
         ctx.count("cases-with-absorbed-exception")
